@@ -1,0 +1,39 @@
+//go:build verif
+
+package filesystem
+
+import (
+	"github.com/cossacklabs/acra/keystore/v2/keystore/api"
+	"github.com/cossacklabs/acra/keystore/v2/keystore/asn1"
+)
+
+// Verification hooks (add-only, compiled only with -tags verif): constants of the key ring
+// update protocol and the signature check of a raw key ring file.
+
+// VerifKeyringSuffixC is the suffix of a key ring file (constant form).
+const VerifKeyringSuffixC = keyringSuffix
+
+// VerifNewSuffix is the suffix added to a key ring file name while it is being replaced.
+const VerifNewSuffix = newSuffix
+
+
+// VerifVerifyKeyRing checks the signature of raw key ring file content stored for path.
+func VerifVerifyKeyRing(s api.KeyStore, data []byte, path string) (*asn1.KeyRing, error) {
+	ring, _, err := s.(*KeyStore).verifyKeyRing(data, path)
+	return ring, err
+}
+
+// VerifTxLogLen returns the number of pending transactions of a key ring object.
+func VerifTxLogLen(r api.KeyRing) int {
+	return len(r.(*KeyRing).txLog)
+}
+
+// VerifDecryptSymmetricKey decrypts symmetric key data of key seqnum of the key ring at path.
+func VerifDecryptSymmetricKey(s api.KeyStore, path string, seqnum int, data []byte) ([]byte, error) {
+	return newKeyRing(s.(*KeyStore), path).decryptSymmetricKey(seqnum, data)
+}
+
+// VerifRingData returns the in-memory state of a key ring object (no synchronisation with the storage).
+func VerifRingData(r api.KeyRing) *asn1.KeyRing {
+	return r.(*KeyRing).data
+}
